@@ -272,10 +272,18 @@ class _Run:
             return False
         if isinstance(e, ast.UnaryOp) and isinstance(e.op, ast.Not):
             return not self.truth(e.operand, env)
+        if isinstance(e, ast.Compare) and len(e.ops) == 1:
+            try:
+                v = self.compare(e, env)
+            except _Fork as f:
+                return self.choose(f.text)
+            return v if isinstance(v, bool) else self.choose(U(e))
         try:
             v = self.ev(e, env)
         except _Fork as f:
             return self.choose(f.text)
+        if isinstance(v, Opaque) and v.what.startswith("test:"):
+            return self.choose(v.what[5:])
         if isinstance(v, bool):
             return v
         if v is None:
@@ -341,7 +349,10 @@ class _Run:
         if isinstance(x, ast.BinOp):
             return self.binop(x.op, self.ev(x.left, env), self.ev(x.right, env), x)
         if isinstance(x, ast.Compare) and len(x.ops) == 1:
-            return self.compare(x, env)
+            try:
+                return self.compare(x, env)
+            except _Fork as f:
+                return Opaque("test:" + f.text)
         if isinstance(x, ast.BoolOp):
             return self.truth(x, env)
         if isinstance(x, ast.IfExp):
